@@ -526,6 +526,11 @@ func (*compiler).VisitFuncCall [C18]
               count(k, 0, len(e.Func.Parameters), !e.Func.Parameters[k].Type.IsReference && nonPrimT(e.Func.Parameters[k].Type.Type))
   // a function defined in DDP frees its parameters itself: the caller emits only the call
   ensures reached(LC) && !ast.IsExternFunc(e.Func) ==> $ncalls == at(LC, $ncalls) + 1
+  // what is released after the call is the argument that was passed for THAT parameter (the out-pointer of a
+  // non-primitive result occupies slot 0), with the parameter's own descriptor; generic list parameters are released
+  // through a pointer cast of it
+  callsite freeNonPrimitive requires !param.Type.IsReference && arg2 == paramIrType
+  callsite freeNonPrimitive requires !ddptypes.IsList(param.Type.Type) ==> arg1 == args[i + (irReturnType.IsPrimitive() ? 0 : 1)]
   loop 1 invariant rangeindex1 < len(e.Func.Parameters) && reached(LC) && ast.IsExternFunc(e.Func)
   loop 1 invariant $ncalls == at(LC, $ncalls) + 1 +
               count(k, 0, rangeindex1 + 1, !e.Func.Parameters[k].Type.IsReference && nonPrimT(e.Func.Parameters[k].Type.Type))
